@@ -26,6 +26,7 @@ TEXT={
  "C17":("responses forged under superseded tokens are injected before and after the token's lifetime + 25%; after expiry the call must not return the forged body","6 C17"),
  "C18":("every call that returns nil must have been handed the response carrying its own marker; no marker may be handed out twice; unsolicited responses must never be delivered","6 C18"),
  "C19":("bounded liveness in simulated time: each call returns by its time-out + 250 ms (or at cancellation), the pending-handler table returns to its size, later requests succeed; response/timer ties are scheduled in both orders","6 C19"),
+ "C20":("delivered messages are retained by reference with a snapshot of their encoding and compared after later traffic on the same and on another connection","6 C20"),
  "C21":("process-level oracle: any panic in a client goroutine kills the worker and is the violation; every operation must return a value or an error","6 C21"),
  "C22":("Connect must succeed iff the signature is valid; otherwise it must return an error, the client must not be Connected, no ActivateSession may be sent, and nothing may panic","6 C22"),
  "C23":("programs of client constructions; what each client announces on the wire is compared with its own options or the documented defaults","6 C23"),
